@@ -205,7 +205,7 @@ func genSession(r *rand.Rand, role string, ws, tee bool, feats []Feat) *Cfg {
 	c := &Cfg{Role: role, WS: ws, Tee: tee, Feats: feats, Reps: 1}
 	n := len(feats)
 	c.S2S = r.Intn(3) == 0
-	c.Init = []uint8{0, 0, bSecure, bSecure | bAuthn}[r.Intn(4)]
+	c.Init = []uint8{0, 0, 0, bSecure, bSecure, bSecure | bAuthn, bSecure | bAuthn, bAuthn}[r.Intn(8)]
 	if role == "receiver" {
 		for i, m := 0, 1+r.Intn(7); i < m; i++ {
 			s := Sel{Cat: "fresh", Pick: r.Intn(1 << 16), IQ: r.Intn(6) == 0, Children: r.Intn(5) == 0}
@@ -353,6 +353,7 @@ type exec struct {
 	sessIdx                    int   // position in the group (0 = first user of the Negotiator)
 	expectForced               *Feat // rule 2: the forced STARTTLS attempt that has to come next
 	teeReinstalled             bool  // a wrapping feature was negotiated with the tee on
+	readyByFeature             bool  // some Negotiate of this session returned Ready itself
 	ranAway                    bool
 	legitRan                   bool
 }
@@ -610,6 +611,23 @@ func (e *exec) onNegotiate(f *Feat, s *xmpp.Session, data any) (xmpp.SessionStat
 		e.peerHdrSince = false
 	}
 	e.model |= mask
+	if mask&bReady != 0 {
+		e.readyByFeature = true
+	}
+	if rw != nil {
+		// does the list this restart was taken from contain a mandatory feature?
+		// (the library's flag covers every configured feature of the list)
+		listReq := false
+		for _, b := range e.last {
+			listReq = listReq || b.f.Req
+		}
+		if !listReq {
+			e.c.Count("r6_restart_from_list_without_mandatory_"+role, 1)
+			if forced {
+				e.c.Count("r6_forced_starttls_restart_from_list_without_mandatory", 1)
+			}
+		}
+	}
 	if mask&bGate&^st != 0 {
 		e.c.Count("r5_masks_adding_gate_bits", 1)
 	}
@@ -944,7 +962,19 @@ func (e *exec) initiatorScript(written []byte) ([]byte, bool) {
 		if f.Space != nsStartTLS || f.Info {
 			continue
 		}
-		if _, adv := e.last[f.Space]; !adv && st&bSecure == 0 && elig(f, st) && !e.negotiated[f.Space] {
+		a, adv := e.last[f.Space]
+		if e.nLists == 1 && st&bSecure == 0 && !(adv && a.eligAtAd) && !elig(f, st) {
+			// not in the library's cache, first list, not secure: only the feature's
+			// own prerequisites stand between it and the forced attempt (rule 1)
+			e.c.Count("r1_forced_starttls_must_not_run", 1)
+			if st&f.Proh != 0 {
+				e.c.Count("r1_forced_starttls_must_not_run_prohibited_bit", 1)
+			}
+			if st&f.Nec != f.Nec {
+				e.c.Count("r1_forced_starttls_must_not_run_necessary_bit", 1)
+			}
+		}
+		if !adv && st&bSecure == 0 && elig(f, st) && !e.negotiated[f.Space] {
 			if e.nLists == 1 {
 				e.expectForced = f
 				e.c.Count("r2_forced_starttls_expected", 1)
@@ -1236,6 +1266,15 @@ func runSession(c *core.Case, cfg *Cfg, neg xmpp.Negotiator, idx int, overlap bo
 		if e.restartPending {
 			e.readyNoRestart = true
 			c.Count("ready_without_restart", 1)
+			// rule 6: a feature that asked for a restart is followed by a fresh header
+			// exchange and features list before the session may be established --
+			// unless a feature itself declared the session Ready, which the library
+			// takes at its word
+			if e.readyByFeature {
+				c.Count("ready_without_restart_declared_by_feature", 1)
+			} else {
+				e.violate(6, "established-without-restart", "constructor returned nil after a Negotiate returned a new ReadWriter, without a fresh stream header having been written and the restarted stream's features list read (no feature of this session returned Ready itself)")
+			}
 		}
 	} else if !panicked {
 		c.Count("constructor_errors", 1)
@@ -1386,6 +1425,12 @@ func Prop() *core.Prop {
 			"runs_with_tee", "established_with_tee", "wrapping_restarts", "tee_reinstalls",
 			"r2_forced_starttls_expected_with_tee", "r2_later_list_without_starttls",
 			"r2_later_list_without_starttls_after_tee_reinstall",
+			// restarts taken from lists without a mandatory feature; forced attempt vs
+			// arbitrary masks and initial states
+			"r6_restart_from_list_without_mandatory_initiator", "r6_restart_from_list_without_mandatory_receiver",
+			"r6_forced_starttls_restart_from_list_without_mandatory",
+			"runs_initial_state_Authn", "r1_forced_starttls_must_not_run",
+			"r1_forced_starttls_must_not_run_prohibited_bit", "r1_forced_starttls_must_not_run_necessary_bit",
 		},
 		Witnesses: witnesses(),
 	}
